@@ -1290,6 +1290,7 @@ func cat(alpha []string, idx []int) string {
 }
 
 func run(t *vlib.T) {
+	strayFamily(t)
 	litMax, litMaxDeep, comMax, verbMax, escMax, seqMax := 3, 4, 3, 3, 3, 2
 	if t.Thorough() {
 		litMax, litMaxDeep, comMax, verbMax, escMax, seqMax = 4, 5, 4, 4, 4, 3
@@ -1405,7 +1406,7 @@ func main() {
 	vlib.Main(vlib.Spec{
 		ID:    "C04",
 		Level: "exploration",
-		Rule: "lit: every string of <= 3 (thorough 4; 5 around {{ v }} and {%- if -%}) symbols of a 17-symbol byte alphabet as literal text alone, before, between, after and inside each of 10 tag kinds, byte-exact against the concatenation model, bare and behind a 4100-byte comment; " +
+		Rule: "stray: 16 closing / branching tag names with no open block x 4 delimiter spellings x 6 placements x text pairs, bare and behind a 4100-byte comment: a render that succeeds must emit all literal text; lit: every string of <= 3 (thorough 4; 5 around {{ v }} and {%- if -%}) symbols of a 17-symbol byte alphabet as literal text alone, before, between, after and inside each of 10 tag kinds, byte-exact against the concatenation model, bare and behind a 4100-byte comment; " +
 			"esc: every such text of <= 3 (thorough 4) symbols not ending in a backslash before, and every such text after, a backslash-escaped opener (\\{{ x }}, \\{% if %}, \\{# c #}): the output must start with the text before and end with the text after, what lies between is not checked; " +
 			"com: every comment body of <= 3 (thorough 4) symbols of that alphabet plus {{ probe() }}, {% if %}, {{, %}; verb: every verbatim body of <= 3 (thorough 4) items under 4 contexts; " +
 			"place: each of those comment and verbatim bodies again in 13 placements (macro body called directly / via _self / via import-as / via from-import, block plain / overriding / through parent() / inherited, included template, for body, if branch, else branch, apply upper), same oracle. " +
